@@ -52,7 +52,7 @@ fn total_uintopt_step() {
     }
 }
 
-// @harness name=total_rle_step kind=complete tiers=quick,thorough domain="all states (last,count) with count > i32::MIN x all byte strings of length 0..=13" bound="unwind 14, unwinding assertions on" target="RleDecoder::read_u8"
+// @harness name=total_rle_step kind=complete tiers=quick,thorough domain="all states (last,count) x all byte strings of length 0..=13" bound="unwind 14, unwinding assertions on" target="RleDecoder::read_u8"
 #[kani::proof]
 #[kani::unwind(14)]
 fn total_rle_step() {
@@ -61,8 +61,6 @@ fn total_rle_step() {
     let mut d = RleDecoder::new(Cursor::new(input));
     d.last = kani::any();
     d.count = kani::any();
-    // count = i32::MIN needs 2^31 reads of a "forever" run; excluded here and listed as unchecked
-    kani::assume(d.count > i32::MIN);
     let _ = d.read_u8();
     assert!(d.cursor.next <= input.len());
 }
@@ -141,4 +139,35 @@ fn rt_rle_3() {
     assert!(d.read_u8().unwrap() == v[0]);
     assert!(d.read_u8().unwrap() == v[1]);
     assert!(d.read_u8().unwrap() == v[2]);
+}
+
+// ---- C10: StringDecoder::read_str on an arbitrary string table and arbitrary length column
+// @harness name=total_read_str kind=bounded tiers=quick,thorough domain="every valid UTF-8 string table of <= 4 bytes x every position on a character boundary x every requested UTF-16 length in u64 (also beyond the table and inside a surrogate pair)" bound="string table <= 4 bytes" target="StringDecoder::read_str" timeout=600
+#[kani::proof]
+#[kani::unwind(6)]
+fn total_read_str() {
+    let sbuf: [u8; 4] = kani::any();
+    let n: usize = kani::any();
+    kani::assume(n <= 4);
+    let table = match std::str::from_utf8(&sbuf[..n]) {
+        Ok(s) => s,
+        Err(_) => {
+            kani::assume(false);
+            ""
+        }
+    };
+    let pos: usize = kani::any();
+    kani::assume(pos <= table.len() && table.is_char_boundary(pos));
+    // the length column is put into the state "one pending value": read_u64 then returns `last` without touching bytes,
+    // so the requested UTF-16 length ranges over every u64 (the column decoder itself is the subject of total_uintopt_step)
+    let empty: &[u8] = &[];
+    let mut len_decoder = UIntOptRleDecoder::new(Cursor::new(empty));
+    len_decoder.last = kani::any();
+    len_decoder.count = 1;
+    let mut d = StringDecoder { buf: table, len_decoder, pos };
+    if let Ok(s) = d.read_str() {
+        // the returned piece comes from the table and the position only moves forward inside it
+        assert!(d.pos <= table.len());
+        assert!(d.pos == pos + s.len());
+    }
 }
